@@ -133,7 +133,7 @@ M("C03", "dropped-ignores-is-connected", "util/connection.py",
   "    return not conn.is_connected", "    return conn.is_closed", rule="C03-R2")
 M("C03", "catcher-releases-without-closed-guard", "response.py",
   "            if self._original_response and self._original_response.isclosed():\n                self.release_conn()",
-  "            if self._original_response:\n                self.release_conn()", rule="C03-R4")
+  "            if self._original_response:\n                self.release_conn()", rule="C01-R6")  # since the F15 fix release_conn closes an unread connection itself: the early hand-back now breaks the clean-read protocol (C01-R6, shared as C03-R7), not the hand-back rule
 M("C03", "clean-exit-true-in-discard-handler", "connectionpool.py",
   "            # replaced during the next _get_conn() call.\n            clean_exit = False\n",
   "            # replaced during the next _get_conn() call.\n            clean_exit = isinstance(e, ProtocolError)\n", rule="C0")
@@ -790,3 +790,5 @@ for _n in range(1, 7):
     B("C04", _n)
 for _n in range(1, 7):
     B("C02", _n)
+for _n in range(1, 7):
+    B("C03", _n)
